@@ -140,6 +140,13 @@ func (propC04) Gen(r *simrt.Rand, idx int, tier string) any {
 		c.Ops = append(c.Ops[:at], append(block, c.Ops[at:]...)...)
 	}
 	c.World.Roots = c.World.Roots[:1+r.Intn(min(2, len(c.World.Roots)))]
+	for i := range c.Ops {
+		// every fourth Commit/Rollback is called with a context that has already ended: whatever
+		// the call answers, the state after a crash must agree with that answer
+		if (c.Ops[i].K == "commit" || c.Ops[i].K == "rollback") && r.Intn(4) == 0 {
+			c.Ops[i].Ctx = "dead"
+		}
+	}
 	cc := CrashCase{Seq: c, Torn: "even", Level2: 1}
 	if tier == "thorough" {
 		cc.Torn = "all"
@@ -304,6 +311,11 @@ type verifyOut struct {
 	Classes       map[int]string `json:"classes,omitempty"` // acknowledged op -> error class it returned
 	Viol          *Violation     `json:"viol,omitempty"`
 	Mutations     uint64         `json:"mutations"`
+	// Trusted: the trusted base gave up, not fs_db: Badger refuses to open its own directory after
+	// a kill that landed inside Badger's creation of a memtable file (a zero-length .mem file is an
+	// error to its Open). Such a crash point is counted and skipped, neither judged nor an
+	// infrastructure failure
+	Trusted string `json:"trusted,omitempty"`
 }
 
 func parseCrashLog(path string) (acked []int, classes map[int]string, inflight int, muts []string, done bool) {
@@ -334,8 +346,14 @@ func parseCrashLog(path string) (acked []int, classes map[int]string, inflight i
 	return
 }
 
-func readState(w *World, written map[uint64]Op) crashState {
-	st := crashState{Vals: map[string]uint64{}, Bad: map[string]string{}}
+func readState(w *World, written map[uint64]Op) (st crashState) {
+	st = crashState{Vals: map[string]uint64{}, Bad: map[string]string{}}
+	defer func() {
+		// inline.Open panics (lo.Must) when Badger cannot be opened
+		if r := recover(); r != nil {
+			st.OpenErr = fmt.Sprintf("panic: %v", r)
+		}
+	}()
 	if err := w.Open(); err != nil {
 		st.OpenErr = err.Error()
 		return st
@@ -420,6 +438,11 @@ func CrashVerify(caseFile, dir, logPath string) int {
 	} else {
 		out.Viol = judgeCrash(c, &out)
 	}
+	for _, e := range []string{out.First.OpenErr, out.Second.OpenErr} {
+		if strings.Contains(e, "badger open:") && strings.Contains(e, "while opening memtables") {
+			out.Trusted, out.Viol = e, nil
+		}
+	}
 	raw, _ := json.Marshal(out)
 	os.Stdout.Write(raw)
 	return 0
@@ -485,12 +508,15 @@ func judgeCrash(c CrashCase, v *verifyOut) *Violation {
 		}
 	}
 	for _, i := range v.Acked {
-		if o := c.Seq.Ops[i]; o.K == "commit" && v.Classes[i] == "other" && c.Oversize {
+		if o := c.Seq.Ops[i]; o.K == "commit" && v.Classes[i] == "other" {
 			// the commit was refused as a whole for a reason of the storage layer (it exceeds what
 			// the metadata store takes in one transaction): nothing of it may be visible, the
 			// transaction is over
 			m.CommitFailed(o.tx())
 			continue
+		}
+		if cl := v.Classes[i]; cl == "other" || cl == "ErrUnknown" || cl == "ErrNoFreeSpace" {
+			continue // acknowledged as failed for a reason of its own: it must have had no effect
 		}
 		apply(m, c.Seq.Ops[i])
 	}
@@ -752,6 +778,10 @@ func (propC04) Exec(x any, _ []int32) RunOut {
 				out.Infra = infra
 				return out
 			}
+			if v.Trusted != "" {
+				out.Probes["trusted-base:badger-refused-its-own-directory-after-a-kill"]++
+				continue
+			}
 			if v.Viol != nil {
 				what := "after the last mutation"
 				if n <= M {
@@ -799,7 +829,11 @@ func crashInRecovery(c CrashCase, base, caseFile, dir, logp string, out *RunOut)
 		raw, vcode := runSelf("crash-verify", "-case", caseFile, "-dir", dir, "-log", logp)
 		var v verifyOut
 		if vcode != 0 || json.Unmarshal(raw, &v) != nil {
-			return nil, fmt.Sprintf("verifier failed after recovery crash %d (exit %d)", m, vcode)
+			return nil, fmt.Sprintf("verifier failed after recovery crash %d (exit %d): %s", m, vcode, lastStderr)
+		}
+		if v.Trusted != "" {
+			out.Probes["trusted-base:badger-refused-its-own-directory-after-a-kill"]++
+			continue
 		}
 		if v.Viol != nil {
 			v.Viol.Signature += ",crash-in-recovery"
